@@ -1,6 +1,7 @@
 SPECIFICATION Spec
 CONSTANTS
-  OpsAlphabet = {"+", "-", "*", "/", "^", "<", "==", "&&", "||"}
+  OpsAlphabet = {"+", "-", "*", "/", "%", "**", "^", "<", "==", "&&", "||"}
   MaxOps = 3
+  Unaries = {"none", "neg"}
 INVARIANTS ClimbEqDecl Faithful Shape Emit
 CHECK_DEADLOCK FALSE
